@@ -150,6 +150,10 @@ func (e *c02Env) checkDag(what func() string, roots ...*Cell) {
 	}
 	for i, c := range refReachable(roots...) {
 		i := i
+		// the bytewise data extraction of the reference agrees with the ideal bit list
+		if a, b := refData(c), refPad(refCellBits(c)); !bytes.Equal(a, b) {
+			e.rep.errorf("%s: HARNESS: refData %x vs bit list %x", what(), a, b)
+		}
 		e.checkCell(c, rh, warm, true, func() string { return fmt.Sprintf("%s cell #%d of {%s}", what(), i, refDumpLazy(roots...)) })
 	}
 }
@@ -186,7 +190,9 @@ func TestVerifStandin_C02_RefHasher(t *testing.T) {
 	tA := time.Since(start)
 
 	// B. enumerated DAGs of ordinary cells
+	perN := map[int]int{}
 	runShape := func(s refShape, bl []int, same bool, how int) {
+		perN[len(s)]++
 		sp := &refBuildSpec{shape: s, bitLens: bl, seed: uint64(refSeed()), same: same}
 		cells, err := refBuild(sp, how, false)
 		if err != nil {
@@ -263,6 +269,7 @@ func TestVerifStandin_C02_RefHasher(t *testing.T) {
 		enum(4, 4, 2, false)
 	}
 	tB := time.Since(start)
+	t.Logf("B: enumerated DAGs per cell count: %v", perN)
 
 	// C. hand-built exotic cells
 	c02Exotic(e, thorough)
